@@ -1,38 +1,236 @@
-import Magog.Lemmas.Geometry
-import Magog.Model.Eval
+import Magog.Lemmas.MirrorWitness
+import Magog.Lemmas.MirrorInv
 
-/-! Property C15 — static evaluation is colour-symmetric. -/
+/-! Property C15 — static evaluation is colour-symmetric.
+
+A position and its colour-flipped mirror image `Model.mirror p` (`Magog/Model/Mirror.lean`: ranks
+reversed, piece colours swapped, side to move swapped, castling rights swapped, en-passant square
+mirrored) evaluate to the same score from the mover's point of view, for EVERY blend function and every
+well-formed position (`Mir.MirrorOk`, legal or not — it does not mention the side to move, so it also
+holds for the turn-flipped position on which the enemy mobility is counted).
+
+The model's panics carry payloads that name squares (`Panic.index "board" i`, `kill`'s message), and the
+mirrored direction lists are permutations of the original ones, so which panic comes first may differ:
+the literal equation `evaluate blend (mirror p) d = evaluate blend p d` is FALSE for some `MirrorOk`
+positions (example at the end: a pawn on its last rank). The headline statements therefore compare the
+two computations through `Count.okVal` (the value, `none` on panic): same value whenever either side
+returns one, and one side panics iff the other does. Whenever `p` itself does not panic the literal
+equation follows (`C15_evaluate_mirror_eq`). The piece-square part and attack detection never panic
+under the hypotheses and are stated as literal equations. -/
 
 namespace Magog.Props.C15
-open Magog Magog.Model Magog.Geo
+open Magog Magog.Model Magog.Geo Magog.Count Magog.Mir Magog.Atk
 
-/-- colour flip of a square: ranks reversed -/
-def mirrorSq (s : Nat) : Nat := s ^^^ 0x70
-
-def tablePairs : List (List Int × List Int) :=
-  [(Gen.sqTablePawnsWhite, Gen.sqTablePawnsBlack), (Gen.sqTableKnightsWhite, Gen.sqTableKnightsBlack),
-   (Gen.sqTableBishopsWhite, Gen.sqTableBishopsBlack), (Gen.sqTableRooksWhite, Gen.sqTableRooksBlack),
-   (Gen.sqTableQueensWhite, Gen.sqTableQueensBlack), (Gen.sqTableKingMidgameWhite, Gen.sqTableKingMidgameBlack),
-   (Gen.sqTableKingEndgameWhite, Gen.sqTableKingEndgameBlack)]
-
-def pstMirrorCheck : Bool :=
-  tablePairs.all fun (w, b) => w.length == 128 && b.length == 128 &&
-    sq88.all fun s => w[s]? == b[mirrorSq s]?
+/-! ### 1. kernel facts on the generated tables -/
 
 set_option maxRecDepth 100000 in
-theorem pstMirrorCheck_true : pstMirrorCheck = true := by decide +kernel
+theorem pstMirrorCheck_true : pstMirrorCheck = true := Mir.pstMirrorCheck_true
 
 /-- **table symmetry** (on the tables regenerated from pieceSquareTables.go): every white table is the
     rank-mirrored black table, for all seven pairs and all 64 squares; all tables have 128 entries -/
 theorem pst_mirror (w b : List Int) (hp : (w, b) ∈ tablePairs) (s : Nat) (hs : s ∈ sq88) :
-    w.length = 128 ∧ b.length = 128 ∧ w[s]? = b[mirrorSq s]? := by
-  have h := pstMirrorCheck_true
-  simp only [pstMirrorCheck, List.all_eq_true, Bool.and_eq_true, beq_iff_eq] at h
-  obtain ⟨⟨h1, h2⟩, h3⟩ := h (w, b) hp
-  exact ⟨h1, h2, h3 s hs⟩
+    w.length = 128 ∧ b.length = 128 ∧ w[s]? = b[mirrorSq s]? := Mir.pst_mirror w b hp s hs
 
-theorem mirrorSq_invol (s : Nat) (hs : s ∈ sq88) : mirrorSq (mirrorSq s) = s ∧ mirrorSq s ∈ sq88 := by
-  have : ∀ s ∈ sq88, mirrorSq (mirrorSq s) = s ∧ mirrorSq s ∈ sq88 := by decide
-  exact this s hs
+theorem mirrorSq_invol (s : Nat) (hs : s ∈ sq88) : mirrorSq (mirrorSq s) = s ∧ mirrorSq s ∈ sq88 :=
+  ⟨mirrorSq_mirrorSq s, mirrorSq_mem_sq88.2 hs⟩
+
+example : (Gen.sqTableKnightsWhite, Gen.sqTableKnightsBlack) ∈ tablePairs ∧ Gen.E4 ∈ sq88 ∧
+    mirrorSq Gen.E4 = Gen.E5 := by decide
+
+/-- **dir_mirror**: one step in a knight / bishop / rook / king direction from a board square, against
+    the rank-negated direction from the mirrored square: on the board together, and then mirror images.
+    (The literal `addb (mirrorSq s) (mirDir d) = mirrorSq (addb s d)` fails when the file nibble wraps,
+    e.g. `s = a1`, `d = W`: both results are off the board but differ.) -/
+theorem dir_mirror {s d : Nat} (hs : s ∈ sq88) (hd : d ∈ knightDirs ++ kingDirs ++ bishopDirs ++ rookDirs) :
+    isValid (addb (mirrorSq s) (mirDir d)) = isValid (addb s d) ∧
+    (isValid (addb s d) = true → addb (mirrorSq s) (mirDir d) = mirrorSq (addb s d)) :=
+  Mir.dir_mirror hs hd
+
+/-- the direction lists are mapped to permutations of themselves -/
+theorem dirs_perm : (knightDirs.map mirDir).Perm knightDirs ∧ (bishopDirs.map mirDir).Perm bishopDirs ∧
+    (rookDirs.map mirDir).Perm rookDirs ∧ (kingDirs.map mirDir).Perm kingDirs :=
+  ⟨knightDirs_perm, bishopDirs_perm, rookDirs_perm, kingDirs_perm⟩
+
+example : Gen.A1 ∈ sq88 ∧ Gen.DirNNE ∈ knightDirs ++ kingDirs ++ bishopDirs ++ rookDirs ∧
+    addb (mirrorSq Gen.A1) (mirDir Gen.DirNNE) = mirrorSq Gen.B3 ∧
+    addb (mirrorSq Gen.A1) (mirDir Gen.DirW) ≠ mirrorSq (addb Gen.A1 Gen.DirW) := by decide
+
+/-- **attack_mirror**: for all 64 × 64 pairs of board squares, the attack-table entry of the mirrored pair
+    has the same knight/bishop/rook/queen/king bits and the two pawn bits exchanged; the direction-table
+    entry is the rank-negated direction -/
+theorem attack_mirror {a t : Nat} (ha : a ∈ sq88) (ht : t ∈ sq88) :
+    attackAt (mirrorSq a) (mirrorSq t) &&& 62 = attackAt a t &&& 62 ∧
+    (attackAt (mirrorSq a) (mirrorSq t) &&& Gen.WPawnAttacks != 0) = (attackAt a t &&& Gen.BPawnAttacks != 0) ∧
+    (attackAt (mirrorSq a) (mirrorSq t) &&& Gen.BPawnAttacks != 0) = (attackAt a t &&& Gen.WPawnAttacks != 0) ∧
+    dirAt (mirrorSq a) (mirrorSq t) = mirDir (dirAt a t) := Mir.attack_mirror ha ht
+
+example : Gen.E4 ∈ sq88 ∧ Gen.D5 ∈ sq88 ∧ attackAt Gen.E4 Gen.D5 &&& Gen.WPawnAttacks ≠ 0 ∧
+    attackAt (mirrorSq Gen.E4) (mirrorSq Gen.D5) &&& Gen.BPawnAttacks ≠ 0 := by decide
+
+/-! ### 2. attack detection -/
+
+/-- **`isUnderCheck` is colour-symmetric** (literal equation: neither side panics differently).
+    Hypotheses: 128-slot byte board; the attackers' lists name board squares; no listed officer slot
+    carries the pawn bit; the slot on the attackers' king square carries exactly one colour bit (it
+    selects the pawn-attack flag); the target is a board square. -/
+theorem isUnderCheck_mirror {b : Array Nat} {en : Side} {dest : Nat} (hb : b.size = 128)
+    (hbytes : ∀ (i x : Nat), b[i]? = some x → x < 256)
+    (hpw : ∀ a ∈ en.pawns, a ∈ sq88)
+    (hpc : ∀ a ∈ en.pieces, a ∈ sq88 ∧ ∀ x, b[a]? = some x → x &&& Pawn = 0)
+    (hk : en.king ∈ sq88) (hkc : ∀ x, b[en.king]? = some x → oneColour x = true)
+    (hd : dest ∈ sq88) :
+    isUnderCheck (mirrorBoard b) (mirrorSide en) (mirrorSq dest) = isUnderCheck b en dest :=
+  Mir.isUnderCheck_mirror hb hbytes hpw hpc hk hkc hd
+
+/-- the hypotheses are satisfiable: they follow from `MirrorOk` (here: the black men of `c15Witness`
+    attacking the white king's square) -/
+example : isUnderCheck (mirrorBoard c15Witness.board) (mirrorSide (c15Witness.side false))
+      (mirrorSq (c15Witness.side true).king)
+    = isUnderCheck c15Witness.board (c15Witness.side false) (c15Witness.side true).king := by
+  obtain ⟨h1, h2, h3, h4, h5, h6, h7⟩ := isUnderCheck_hyps c15Witness_ok false
+  exact isUnderCheck_mirror h1 h2 h3 h4 h5 h6 h7
+
+/-- the mover's king is in check in the mirror image iff it is in the position -/
+theorem isCurrentKingUnderCheck_mirror {p : Position} (h : MirrorOk p) :
+    isCurrentKingUnderCheck (mirror p) = isCurrentKingUnderCheck p :=
+  Mir.isCurrentKingUnderCheck_mirror h
+
+/-! ### 3. `makeMove` -/
+
+/-- **`makeMove` commutes with the colour flip**: identical panic behaviour up to the payload, and the
+    `.ok` results correspond (`mirrorRes (q, ok) = (mirror q, ok)`). `MoveOk p m`: the moved man is the
+    mover's; a promotion piece is a bare kind (`< 64`); a king move lands on a board square; a
+    castling-shaped king move does not wipe the enemy king off the rook's corner (without these the
+    statement is false: the pawn-attack flag is chosen by the colour bit on the enemy king's slot). -/
+theorem makeMove_mirror {p : Position} {m : Move} (h : MirrorOk p) (hm : MoveOk p m) :
+    okVal (makeMove (mirror p) (mirrorMove m)) = (okVal (makeMove p m)).map mirrorRes :=
+  Mir.makeMove_mirror h hm
+
+/-- the same without `okVal`: the `.ok` results correspond -/
+theorem makeMove_mirror_ok {p : Position} {m : Move} (h : MirrorOk p) (hm : MoveOk p m) (q : Position)
+    (ok : Bool) (hq : makeMove p m = .ok (q, ok)) : makeMove (mirror p) (mirrorMove m) = .ok (mirror q, ok) := by
+  have := Mir.makeMove_mirror h hm
+  rw [hq] at this
+  exact okVal_eq_some this
+
+example : MirrorOk startPosition ∧ MoveOk startPosition ⟨Gen.E2, Gen.E4, 0, Gen.E3⟩ :=
+  ⟨MirrorOk.of_inv inv_startPosition, moveOk_listed (MirrorOk.of_inv inv_startPosition) (.inl (by decide)) _ _⟩
+
+/-- `MoveOk` cannot be dropped: in the `MirrorOk` position `c15NoOwn` (White Ke1; black Ke8, Pd2) the
+    "move" a3–e8 from an empty square is judged king-safe, its mirror image in the mirrored position is
+    not (kernel-evaluated) -/
+example : MirrorOk c15NoOwn ∧
+    (okVal (makeMove c15NoOwn ⟨Gen.A3, Gen.E8, 0, InvalidSq⟩)).map (·.2) = some true ∧
+    (okVal (makeMove (mirror c15NoOwn) (mirrorMove ⟨Gen.A3, Gen.E8, 0, InvalidSq⟩))).map (·.2) = some false :=
+  ⟨mirrorOk_of_B c15NoOwn_fact.1, c15NoOwn_fact.2.1, c15NoOwn_fact.2.2⟩
+
+/-! ### 4. mobility -/
+
+/-- **`countMoves` is colour-symmetric**: same count; panics on one side iff on the other (the mirrored
+    direction lists are permutations of the original ones, sums do not depend on the order) -/
+theorem countMoves_mirror {p : Position} (h : MirrorOk p) :
+    okVal (countMoves (mirror p)) = okVal (countMoves p) := countMoves_okVal_mirror h
+
+example : MirrorOk c15Witness ∧ okVal (countMoves c15Witness) = some 24 ∧
+    okVal (countMoves (mirror c15Witness)) = some 24 :=
+  ⟨c15Witness_ok, c15Witness_counts.1, c15Witness_counts.2.1⟩
+
+/-! ### 5. material and piece-square tables -/
+
+/-- **the cheap score is colour-symmetric**, literally and for every blend function (`PstOk`: 128-slot
+    byte board, flags byte, lists and kings on board squares — implied by `MirrorOk`) -/
+theorem pieceSquareScore_mirror (blend : Blend) {p : Position} (h : PstOk p) :
+    pieceSquareScore blend (mirror p) = pieceSquareScore blend p := pieceSquareScore_mirror_pstOk blend h
+
+theorem C15_cheap_mirror (blend : Blend) {p : Position} (h : MirrorOk p) :
+    pieceSquareScore blend (mirror p) = pieceSquareScore blend p := pieceSquareScore_mirror_pstOk blend h.pstOk
+
+example : PstOk c15Witness := c15Witness_ok.pstOk
+
+/-! ### 6. mate test, turn flip, evaluation -/
+
+theorem flipTurn_mirror {p : Position} (h : p.flags < 256) : mirror (flipTurn p) = flipTurn (mirror p) :=
+  Mir.flipTurn_mirror h
+
+theorem mirrorOk_flipTurn {p : Position} (h : MirrorOk p) : MirrorOk (flipTurn p) := h.flipTurn
+
+example : c15Witness.flags < 256 ∧ MirrorOk c15Witness ∧ MirrorOk (flipTurn c15Witness) :=
+  ⟨by decide, c15Witness_ok, c15Witness_ok.flipTurn⟩
+
+theorem isCheckMate_mirror {p : Position} (h : MirrorOk p) :
+    okVal (isCheckMate (mirror p)) = okVal (isCheckMate p) := isCheckMate_okVal_mirror h
+
+/-- **lazy evaluation is colour-symmetric**: same window, same depth, every blend function -/
+theorem lazyEvaluate_mirror (blend : Blend) {p : Position} (h : MirrorOk p) (depth alpha beta : Int) :
+    okVal (lazyEvaluate blend (mirror p) depth alpha beta) = okVal (lazyEvaluate blend p depth alpha beta) :=
+  lazyEvaluate_okVal_mirror blend h depth alpha beta
+
+/-- non-vacuity: with the window (400, 500) the lazy shortcut is taken on both sides (−170) -/
+example : MirrorOk c15Witness ∧ okVal (lazyEvaluate c15Blend c15Witness 3 400 500) = some (-170) ∧
+    okVal (lazyEvaluate c15Blend (mirror c15Witness) 3 400 500) = some (-170) :=
+  ⟨c15Witness_ok, c15Witness_lazy.1, c15Witness_lazy.2⟩
+
+/-- **C15: the static evaluation is colour-symmetric**, for every blend function and every `MirrorOk`
+    position: the mirror image evaluates to the same score from the mover's point of view, and panics
+    iff the position does.
+    (The literal `evaluate blend (mirror p) d = evaluate blend p d` is false in general — see the last
+    example — because panic payloads name squares; it holds whenever `p` does not panic:
+    `C15_evaluate_mirror_eq`.) -/
+theorem C15_evaluate_mirror (blend : Blend) {p : Position} (h : MirrorOk p) (d : Int) :
+    okVal (evaluate blend (mirror p) d) = okVal (evaluate blend p d) := evaluate_okVal_mirror blend h d
+
+/-- the same without `okVal` -/
+theorem C15_evaluate_mirror_iff (blend : Blend) {p : Position} (h : MirrorOk p) (d v : Int) :
+    evaluate blend (mirror p) d = .ok v ↔ evaluate blend p d = .ok v :=
+  okVal_eq_iff.1 (evaluate_okVal_mirror blend h d) v
+
+/-- literal equation when the position evaluates without panic -/
+theorem C15_evaluate_mirror_eq (blend : Blend) {p : Position} (h : MirrorOk p) (d : Int)
+    (hok : ∃ v, evaluate blend p d = .ok v) : evaluate blend (mirror p) d = evaluate blend p d :=
+  eq_of_okVal (evaluate_okVal_mirror blend h d) hok
+
+theorem lazyEvaluate_mirror_eq (blend : Blend) {p : Position} (h : MirrorOk p) (depth alpha beta : Int)
+    (hok : ∃ v, lazyEvaluate blend p depth alpha beta = .ok v) :
+    lazyEvaluate blend (mirror p) depth alpha beta = lazyEvaluate blend p depth alpha beta :=
+  eq_of_okVal (lazyEvaluate_okVal_mirror blend h depth alpha beta) hok
+
+/-- non-vacuity on an asymmetric position (White Ke1 Ra1 Pa7 Pc2 with queenside castling right, black Kh6
+    Rb8 Nf6 Pg7, White to move): `MirrorOk` holds, both sides evaluate (kernel-computed independently)
+    to −190, with 24 own and 28 enemy moves -/
+example : MirrorOk c15Witness ∧ okVal (evaluate c15Blend c15Witness 3) = some (-190) ∧
+    okVal (evaluate c15Blend (mirror c15Witness) 3) = some (-190) ∧
+    evaluate c15Blend (mirror c15Witness) 3 = evaluate c15Blend c15Witness 3 :=
+  ⟨c15Witness_ok, c15Witness_eval, c15Witness_eval_mirror,
+    C15_evaluate_mirror_eq c15Blend c15Witness_ok 3 ⟨-190, okVal_eq_some c15Witness_eval⟩⟩
+
+/-! ### 7. well-formedness -/
+
+/-- the shared position invariant implies `MirrorOk` -/
+theorem mirrorOk_of_inv {p : Position} (h : Inv p) : MirrorOk p := MirrorOk.of_inv h
+
+theorem mirror_involutive {p : Position} (h : MirrorOk p) : mirror (mirror p) = p := Mir.mirror_involutive h
+
+/-- the colour flip preserves both notions of well-formedness -/
+theorem mirrorOk_mirror {p : Position} (h : MirrorOk p) : MirrorOk (mirror p) := h.mirror
+
+theorem inv_mirror {p : Position} (h : Inv p) : Inv (mirror p) := Mir.inv_mirror h
+
+example : Inv (mirror startPosition) := inv_mirror inv_startPosition
+
+/-- non-vacuity: the engine's initial position is `MirrorOk`; its mirror image is the same board and
+    lists with Black to move -/
+example : MirrorOk startPosition ∧ (mirror startPosition).board = startPosition.board ∧
+    whiteTurn (mirror startPosition) = false ∧ mirror (mirror startPosition) = startPosition :=
+  ⟨MirrorOk.of_inv inv_startPosition, mirror_start.2.2.1, mirror_start.2.2.2.1,
+    Mir.mirror_involutive (MirrorOk.of_inv inv_startPosition)⟩
+
+/-- why the headline is not a literal equation: a `MirrorOk` position with a white pawn on a8 panics in
+    `countMoves` on `board[0x81]`, its mirror image (black pawn on a1) on `board[0xF1]` -/
+example : MirrorOk c15BackPawn ∧ evaluate c15Blend c15BackPawn 3 = .error (.index "board" 129) ∧
+    evaluate c15Blend (mirror c15BackPawn) 3 = .error (.index "board" 241) ∧
+    evaluate c15Blend (mirror c15BackPawn) 3 ≠ evaluate c15Blend c15BackPawn 3 := by
+  refine ⟨c15BackPawn_ok, errVal_eq c15BackPawn_err, errVal_eq c15BackPawn_err_mirror, ?_⟩
+  rw [errVal_eq c15BackPawn_err, errVal_eq c15BackPawn_err_mirror]
+  simp
 
 end Magog.Props.C15
